@@ -37,6 +37,9 @@ Min(S) == CHOOSE x \in S : \A y \in S : x <= y
 SeqToSet(s) == {s[i] : i \in 1..Len(s)}
 (* no RECURSIVE operators in this module: TLC evaluates their arguments by name, without caching *)
 SumSeq(s) == FoldFunction(LAMBDA a, b : a + b, 0, s)
+(* left fold over a short sequence (a recursive function, not a recursive operator); used once, in InoClaims, where the order
+   of the scan matters *)
+FoldL(op(_, _), base, seq) == LET F[i \in 0..Len(seq)] == IF i = 0 THEN base ELSE op(F[i - 1], seq[i]) IN F[Len(seq)]
 
 NBlk(sz) == (sz + BS - 1) \div BS
 BlkLen(sz, i) == IF i < NBlk(sz) THEN BS ELSE sz - (NBlk(sz) - 1) * BS
@@ -246,6 +249,53 @@ ScanCounts(C, fs, d) == [equal |-> Cardinality(Kept(C, fs, d)),
                          change |-> Cardinality(Changed(C, fs, d)),
                          add |-> Cardinality(Fresh(C, fs, d) \ DOMAIN C.cf[d])]
 
+(***************************************************************************)
+(* Scan with usable inodes (scan.c:732-850): on a disk whose UUID is the   *)
+(* recorded one ("trusted": tr) every file is first looked up by inode     *)
+(* number among the records of the disk; a record with the same inode,     *)
+(* size and time stamp IS that file, whatever its name (a move: no data is *)
+(* read again); only then the path is tried.  The names are met in scan    *)
+(* order and a record met by path (kept or replaced) is no longer there    *)
+(* for a later file that carries its inode number.  File records carry the *)
+(* field ino in the traces of inode-mode arrays only.                      *)
+(* The claims are turned into a renaming of the records (a record whose    *)
+(* name is taken over by a moved record and that is not itself claimed is  *)
+(* never looked at again: it is removed at the end of the scan), after     *)
+(* which the scan by path and stamp of this module applies unchanged.      *)
+(***************************************************************************)
+InoClaims(C, fs, d) ==
+    LET step(acc, n) ==
+            LET cand == {r \in DOMAIN C.cf[d] : r \notin acc.done /\ r \notin acc.noino /\ C.cf[d][r].ino = fs[d][n].ino}
+                r == CHOOSE x \in cand : TRUE
+                byino == cand # {} /\ SameStamp(C.cf[d][r], fs[d][n])
+                pathdone == IF n \in DOMAIN C.cf[d] /\ n \notin acc.done THEN {n} ELSE {}
+            IN IF byino THEN [done |-> acc.done \cup {r}, noino |-> acc.noino, ren |-> acc.ren @@ (n :> r)]
+               \* the inode number of a record is forgotten when another file carries it (scan.c:850-870)
+               ELSE [done |-> acc.done \cup pathdone, noino |-> acc.noino \cup cand, ren |-> acc.ren]
+    IN FoldL(step, [done |-> {}, noino |-> {}, ren |-> <<>>], SortNames(DOMAIN fs[d])).ren
+GoneName(n) == "~" \o n        \* never the name of a file
+InoRenameDisk(C, fs, d) ==
+    LET ren == InoClaims(C, fs, d)                      \* new name -> recorded name
+        moved == {n \in DOMAIN ren : ren[n] # n}
+        movedold == {ren[n] : n \in moved}
+        shadow == {n \in moved : n \in DOMAIN C.cf[d] /\ n \notin movedold}
+        keepold == DOMAIN C.cf[d] \ (movedold \cup shadow)
+        newdom == keepold \cup moved \cup {GoneName(n) : n \in shadow}
+    IN Eager([m \in newdom |-> IF m \in moved THEN C.cf[d][ren[m]]
+                               ELSE IF m \in keepold THEN C.cf[d][m]
+                               ELSE C.cf[d][CHOOSE n \in shadow : GoneName(n) = m]])
+InoRename(C, fs, tr) == IF tr = {} THEN C ELSE [C EXCEPT !.cf = [d \in D |-> IF d \in tr THEN InoRenameDisk(C, fs, d) ELSE C.cf[d]]]
+(* what diff and the scan report besides additions, removals and changes: moved files and files that came back with a new inode *)
+InoDifferences(C, fs, tr) ==
+    \E d \in tr :
+        \/ \E n \in DOMAIN InoClaims(C, fs, d) : InoClaims(C, fs, d)[n] # n
+        \/ \E m \in Kept(InoRename(C, fs, tr), fs, d) : InoRename(C, fs, tr).cf[d][m].ino # fs[d][m].ino
+(* after a scan every record carries the inode number its file has now *)
+WithCurrentInodes(C, fs) ==
+    [C EXCEPT !.cf = [d \in D |-> [n \in DOMAIN C.cf[d] |->
+                         IF n \in DOMAIN fs[d] /\ "ino" \in DOMAIN fs[d][n] THEN [ino |-> fs[d][n].ino] @@ [x \in DOMAIN C.cf[d][n] \ {"ino"} |-> C.cf[d][n][x]]
+                         ELSE C.cf[d][n]]]]
+
 (* the interlocks of scan.c:1828-1873 and scan.c:1011 (copy-detected changes count as copies, not changes) *)
 (* lc[d] = [eq, rm, chg]: unchanged / removed / changed links of disk d; they count like files (scan.c:149-222) *)
 NoLinks == [d \in D |-> [eq |-> 0, rm |-> 0, chg |-> 0]]
@@ -444,10 +494,12 @@ Prehash(M, fs, lo, hi) ==
    opts = [force_full, force_empty, force_zero, nocopy]; srcs = copy-source choice *)
 SyncResult(C, fs0, fs1, par, now, opts, srcs) ==
     LET realloc == "force_realloc" \in DOMAIN opts /\ opts.force_realloc
-        L0 == IF opts.nocopy THEN ForceNoCopy(ClearPast(C)) ELSE IF realloc THEN ForceRealloc(ClearPast(C)) ELSE ClearPast(C)
+        tr == IF "trusted" \in DOMAIN opts THEN opts.trusted ELSE {}
+        L00 == IF opts.nocopy THEN ForceNoCopy(ClearPast(C)) ELSE IF realloc THEN ForceRealloc(ClearPast(C)) ELSE ClearPast(C)
+        L0 == InoRename(L00, fs0, tr)
         refused == \/ (~opts.force_empty /\ EmptyInterlockL(L0, fs0, srcs, IF "links" \in DOMAIN opts THEN opts.links ELSE NoLinks))
                    \/ (~opts.force_zero /\ ZeroInterlock(L0, fs0))
-        M0 == Scan(L0, fs0, srcs, TRUE)
+        M0 == WithCurrentInodes(Scan(L0, fs0, srcs, TRUE), fs0)
         bm == AllocatedMax(M0)
         lo0 == IF "bstart" \in DOMAIN opts THEN opts.bstart ELSE 0
         hi0 == IF "bcount" \in DOMAIN opts /\ opts.bcount # 0 /\ lo0 + opts.bcount < bm THEN lo0 + opts.bcount ELSE bm
@@ -468,7 +520,8 @@ SyncResult(C, fs0, fs1, par, now, opts, srcs) ==
         r == SyncRange(M, fs1, par1, lo, bmp, now, opts.force_full, [l \in Levels |-> Len(par[l])])
         \* the state is saved before the stripes are processed when the scan or the resize changed something,
         \* and again at the end unless --test-kill-after-sync
-        scanchg == \E d \in D : Gone(L0, fs0, d) # {} \/ Fresh(L0, fs0, d) # {} \/ Realloc(L0, fs0, d) # {}
+        scanchg == \/ \E d \in D : Gone(L0, fs0, d) # {} \/ Fresh(L0, fs0, d) # {} \/ Realloc(L0, fs0, d) # {}
+                   \/ InoDifferences(L00, fs0, tr)          \* moved files and new inode numbers are saved too
         \* parity_chsize reports "modified" when the size differs from the recorded one; format 2 content files do not
         \* record parity sizes, so with them every sync that gets this far rewrites the content (opts.v3 = sizes recorded)
         resized == ~("v3" \in DOMAIN opts /\ opts.v3) \/ \E l \in Levels : Len(par[l]) # bm
@@ -489,6 +542,8 @@ SyncResult(C, fs0, fs1, par, now, opts, srcs) ==
 
 DiffResult(C, fs, srcs) ==
     [exit |-> IF NoDifference(C, fs) /\ ~ParityInvalid(C) THEN "equal" ELSE "diff"]
+DiffResultI(C, fs, tr) ==
+    [exit |-> IF NoDifference(InoRename(C, fs, tr), fs) /\ ~ParityInvalid(C) /\ ~InoDifferences(C, fs, tr) THEN "equal" ELSE "diff"]
 
 (***************************************************************************)
 (* Check / Fix of one stripe (check.c:946-1448, repair at 287-586).        *)
